@@ -46,6 +46,7 @@ type Contract struct {
 	Lets     []*Clause // ghost lets: name := expr evaluated at entry
 	Covers   []*Clause
 	Opaque   bool // body not verified, not trusted either: listed as unverified
+	Replay   *replaySpec
 }
 
 type ContractSet struct {
@@ -168,6 +169,10 @@ func (cs *ContractSet) ParseFile(path string, pkg string, external bool) error {
 		switch {
 		case strings.HasPrefix(body, "props "):
 			cur.Props = strings.Fields(strings.TrimPrefix(body, "props "))
+			last = nil
+			continue
+		case strings.HasPrefix(body, "replay "):
+			cur.Replay = parseReplay(strings.TrimPrefix(body, "replay "))
 			last = nil
 			continue
 		case body == "inline":
